@@ -25,6 +25,7 @@ RULE = (
     ' Round 9: traffic / gateway messages / flags / sessions between requests; a node that vanishes from the registry without the application removing it is reported.'
     ' Round 10: registry and presented nodes of every node type.'
     ' Round 11: environment sweep (see C03) incl. the registry grown through update / setdefault / |=.'
+    ' Round 12: pass under `python -O`; eager task factory in the sweep.'
 )
 ASSUMPTIONS = ["the allocation policy itself is not fixed by the statement: any fresh id in 1..254 is accepted"]
 DELETABLE = ("ops", "fail_answers")
